@@ -34,6 +34,7 @@
 -/
 import BklProofs.Lemmas.Stream
 import BklProofs.Lemmas.Json
+import BklProofs.Lemmas.JsonPretty
 namespace Bkl
 
 /-! ## the framing lemma -/
@@ -586,5 +587,223 @@ theorem C05_json_fuel_adequate (fol : String → String) (cs : List Char) :
     (∀ fuel x r, jsonParseValue fol fuel cs = .ok (x, r) → r.length < cs.length) :=
   ⟨js_parseValue_fuel fol cs, js_decodeDocs_fuel fol cs,
     fun fuel x r h => (js_parse_length fol fuel).1 cs x r h⟩
+
+end Bkl
+
+/-!
+  ## The indented writer (`json-pretty`: `Encoder.SetIndent("", "  ")`)
+
+  `jsonPrettyChars jf lvl v` is the text of `v` written at nesting level `lvl`; `jsonPrettyStream`
+  is json.go's `jsonMarshalStreamPretty`.  The layout the writer adds (line breaks, indentation,
+  the space after `:`) is JSON whitespace in places where the reader skips whitespace, so the
+  indented text reads back exactly like the compact one.  Helper lemmas:
+  BklProofs/Lemmas/JsonPretty.lean (prefix `jsp_`).
+-/
+namespace Bkl
+
+/-- **The layout is whitespace between tokens**: a line break with its indentation is skipped down
+    to the next token whenever that token does not start with whitespace, and the first character
+    of a value's text — indented or compact — never is whitespace (it is `-`, a digit, `"`, `[`,
+    `{`, `n`, `t` or `f`; for floats this is where the number hypothesis enters), nor are the
+    other tokens that follow a line break (`"` of a key, `]`, `}`). -/
+theorem C05_json_pretty_layout_is_whitespace (jf fol : String → String) :
+    (∀ (lvl : Nat) (c : Char) (t : List Char), jsonIsWs c = false →
+      jsonSkipWs (jsonNewline lvl ++ c :: t) = c :: t) ∧
+    (∀ (lvl : Nat) (cs : List Char), jsonSkipWs (jsonNewline lvl ++ cs) = jsonSkipWs cs) ∧
+    (∀ (v : Val) (lvl : Nat), js_NumsOK jf fol v →
+      (∃ c t, jsonPrettyChars jf lvl v = c :: t ∧ js_valueStart c ∧ jsonIsWs c = false) ∧
+      (∃ c t, jsonEncodeChars jf v = c :: t ∧ js_valueStart c ∧ jsonIsWs c = false)) ∧
+    (∀ (v : Val) (lvl : Nat), (jsonPrettyChars jf lvl v).head? = (jsonEncodeChars jf v).head?) ∧
+    jsonIsWs '"' = false ∧ jsonIsWs ']' = false ∧ jsonIsWs '}' = false := by
+  refine ⟨fun lvl c t h => jsp_skipWs_newline_cons lvl h t, jsp_skipWs_newline, ?_, ?_,
+    by decide, by decide, by decide⟩
+  · intro v lvl hv
+    obtain ⟨c, t, e, hc⟩ := jsp_pretty_head jf fol lvl v hv
+    obtain ⟨c', t', e', hc'⟩ := js_enc_head jf fol v hv
+    exact ⟨⟨c, t, e, hc, (js_valueStart_facts hc).1⟩, ⟨c', t', e', hc', (js_valueStart_facts hc').1⟩⟩
+  · intro v lvl; exact jsp_head_eq jf lvl v
+
+example : jsonSkipWs (jsonNewline 3 ++ ['"', 'k', '"']) = ['"', 'k', '"'] :=
+  (C05_json_pretty_layout_is_whitespace js_demoJf js_demoFol).1 3 '"' _ (by decide)
+example : jsonNewline 2 = ['\n', ' ', ' ', ' ', ' '] := by decide
+
+/-- **C05_json_pretty_parse** — the parser on the indented writer's output, for EVERY level: the
+    indented text of `v`, followed by anything that does not go on like a number, parses (with any
+    fuel ≥ the text's length) to the raw form of `v` — the same raw form the compact text gives —
+    and leaves exactly what followed; `normalize` then turns it into `v`. -/
+theorem C05_json_pretty_parse (jf fol : String → String) (v : Val) (hn : js_NumsOK jf fol v)
+    (lvl fuel : Nat) (hf : (jsonPrettyChars jf lvl v).length ≤ fuel) (rest : List Char)
+    (hs : ∀ c t, rest = c :: t → js_numChar c = false) :
+    jsonParseValue fol fuel (jsonPrettyChars jf lvl v ++ rest) = .ok (js_rawOf jf fol v, rest) ∧
+    (v.WF → normalize (js_rawOf jf fol v) = .ok v) :=
+  ⟨jsp_parse_pretty' jf fol v lvl fuel rest hn hf hs, fun hw => js_normalize_raw jf fol v hw hn⟩
+
+/-- … and the fuel the compact text needs is already enough (the indented text is never shorter,
+    and the extra characters are skipped without spending fuel). -/
+theorem C05_json_pretty_parse_compact_fuel (jf fol : String → String) (v : Val)
+    (hn : js_NumsOK jf fol v) (lvl fuel : Nat) (hf : (jsonEncodeChars jf v).length ≤ fuel)
+    (rest : List Char) (hs : ∀ c t, rest = c :: t → js_numChar c = false) :
+    jsonParseValue fol fuel (jsonPrettyChars jf lvl v ++ rest) = .ok (js_rawOf jf fol v, rest) ∧
+    (jsonEncodeChars jf v).length ≤ (jsonPrettyChars jf lvl v).length :=
+  ⟨jsp_parse_pretty jf fol v lvl fuel rest hn hf hs, jsp_enc_le_pretty jf v lvl⟩
+
+/-- non-vacuity: the test values meet the hypothesis; level 1, something after the text -/
+example : js_NumsOK js_demoJf js_demoFol jsp_demoVal2 := jsp_demoVal2_repr.2
+example : jsonParseValue js_demoFol 110 (jsonPrettyChars js_demoJf 1 jsp_demoVal2 ++ [',', '1'])
+    = .ok (js_rawOf js_demoJf js_demoFol jsp_demoVal2, [',', '1']) :=
+  (C05_json_pretty_parse js_demoJf js_demoFol jsp_demoVal2 jsp_demoVal2_repr.2 1 110 (by decide) _
+    (by intro c t e; cases e; decide)).1
+example : (jsonEncodeChars js_demoJf jsp_demoVal2).length = 39 ∧
+    (jsonPrettyChars js_demoJf 1 jsp_demoVal2).length = 104 := by decide
+example : jsonParseValue js_demoFol 39 (jsonPrettyChars js_demoJf 1 jsp_demoVal2)
+    = .ok (js_rawOf js_demoJf js_demoFol jsp_demoVal2, []) := by
+  have := (C05_json_pretty_parse_compact_fuel js_demoJf js_demoFol jsp_demoVal2
+    jsp_demoVal2_repr.2 1 39 (by decide) [] (by intro c t e; cases e)).1
+  rwa [List.append_nil] at this
+
+/-- **C05_json_pretty_decode**: for every well-formed value whose integers fit int64 and whose
+    float texts meet the float hypothesis, loading the indented text gives the value back —
+    written at level 0 as bkl does (or at any other level), with or without the newline the
+    stream writer adds. -/
+theorem C05_json_pretty_decode (jf fol : String → String) (v : Val) (hw : v.WF)
+    (hn : js_NumsOK jf fol v) :
+    jsonLoad fol (String.ofList (jsonPrettyChars jf 0 v)) = .ok v ∧
+    jsonLoad fol (jsonPrettyStream jf [v]) = .ok v ∧
+    (∀ lvl, jsonLoad fol (String.ofList (jsonPrettyChars jf lvl v)) = .ok v) :=
+  ⟨jsp_load_pretty jf fol v 0 ⟨hw, hn⟩, jsp_load_prettyStream_one jf fol v ⟨hw, hn⟩,
+    fun lvl => jsp_load_pretty jf fol v lvl ⟨hw, hn⟩⟩
+
+example : jsp_demoVal.WF ∧ js_NumsOK js_demoJf js_demoFol jsp_demoVal := jsp_demoVal_repr
+example : jsonLoad js_demoFol (String.ofList (jsonPrettyChars js_demoJf 0 js_demoVal))
+    = .ok js_demoVal :=
+  (C05_json_pretty_decode _ _ _ js_demoVal_repr.1 js_demoVal_repr.2).1
+
+/-- **C05_json_pretty_stream_roundtrip**: what `jsonMarshalStreamPretty` writes for any list of
+    such values (also the empty list; null documents too) is read back by `jsonUnmarshalStream` +
+    `normalize` as the same list. -/
+theorem C05_json_pretty_stream_roundtrip (jf fol : String → String) (vs : List Val)
+    (h : ∀ v ∈ vs, v.WF ∧ js_NumsOK jf fol v) :
+    jsonLoadStream fol (jsonPrettyStream jf vs) = .ok vs :=
+  jsp_loadStream_prettyStream jf fol vs h
+
+example : jsonLoadStream js_demoFol
+      (jsonPrettyStream js_demoJf [js_demoVal, .null, jsp_demoVal, .int (-5), jsp_demoVal2])
+    = .ok [js_demoVal, .null, jsp_demoVal, .int (-5), jsp_demoVal2] :=
+  C05_json_pretty_stream_roundtrip _ _ _ (by
+    intro v hv
+    simp only [List.mem_cons, List.mem_nil_iff, or_false] at hv
+    rcases hv with rfl | rfl | rfl | rfl | rfl
+    · exact js_demoVal_repr
+    · exact ⟨by decide, by simp [js_NumsOK]⟩
+    · exact jsp_demoVal_repr
+    · exact ⟨by decide, by simp only [js_NumsOK]; decide⟩
+    · exact jsp_demoVal2_repr)
+example : jsonLoadStream js_demoFol (jsonPrettyStream js_demoJf []) = .ok [] :=
+  C05_json_pretty_stream_roundtrip _ _ [] (by simp)
+
+/-- **C05_json_pretty_same_value_as_compact**: both writers denote the same value — the reader
+    cannot tell which of the two wrote a stream (or a single document, at any level). -/
+theorem C05_json_pretty_same_value_as_compact (jf fol : String → String) :
+    (∀ vs : List Val, (∀ v ∈ vs, v.WF ∧ js_NumsOK jf fol v) →
+      jsonLoadStream fol (jsonPrettyStream jf vs) = jsonLoadStream fol (jsonEncodeStream jf vs)) ∧
+    (∀ (v : Val) (lvl : Nat), v.WF → js_NumsOK jf fol v →
+      jsonLoad fol (String.ofList (jsonPrettyChars jf lvl v)) = jsonLoad fol (jsonEncode jf v)) ∧
+    (∀ (v : Val) (lvl fuel : Nat) (rest : List Char), js_NumsOK jf fol v →
+      (jsonEncodeChars jf v).length ≤ fuel → (∀ c t, rest = c :: t → js_numChar c = false) →
+      jsonParseValue fol fuel (jsonPrettyChars jf lvl v ++ rest) =
+        jsonParseValue fol fuel (jsonEncodeChars jf v ++ rest)) := by
+  refine ⟨?_, ?_, ?_⟩
+  · intro vs h
+    rw [C05_json_pretty_stream_roundtrip jf fol vs h, C05_json_stream_roundtrip jf fol vs h]
+  · intro v lvl hw hn
+    rw [jsp_load_pretty jf fol v lvl ⟨hw, hn⟩, js_load_encode jf fol v ⟨hw, hn⟩]
+  · intro v lvl fuel rest hn hf hs
+    rw [jsp_parse_pretty jf fol v lvl fuel rest hn hf hs, js_parse_enc jf fol v fuel rest hn hf hs]
+
+example : jsonLoadStream js_demoFol (jsonPrettyStream js_demoJf [jsp_demoVal, jsp_demoVal2]) =
+    jsonLoadStream js_demoFol (jsonEncodeStream js_demoJf [jsp_demoVal, jsp_demoVal2]) :=
+  (C05_json_pretty_same_value_as_compact js_demoJf js_demoFol).1 _ (by
+    intro v hv
+    simp only [List.mem_cons, List.mem_nil_iff, or_false] at hv
+    rcases hv with rfl | rfl
+    · exact jsp_demoVal_repr
+    · exact jsp_demoVal2_repr)
+
+/-- **Both writers are one writer with two layouts** (no hypothesis on numbers, strings or
+    well-formedness): `jsp_layout nl sp` writes `nl lvl` wherever the indented writer breaks the
+    line at level `lvl` and `sp` after the `:` of a member; with `jsonNewline` and one space it IS
+    the indented writer, with nothing in both places it IS the compact writer.  So the indented
+    text is the compact text plus the characters of `jsonNewline …` and the spaces after `:`. -/
+theorem C05_json_pretty_layout (jf : String → String) (v : Val) (lvl : Nat) :
+    jsp_layout jsonNewline [' '] jf lvl v = jsonPrettyChars jf lvl v ∧
+    jsp_layout (fun _ => []) [] jf lvl v = jsonEncodeChars jf v :=
+  ⟨jsp_layout_pretty jf v lvl, jsp_layout_compact jf v lvl⟩
+
+/-- The same on the TEXT, with `jspStrip` (drop every whitespace character outside a string
+    literal, copy the rest): without a hypothesis on the float parameter this is FALSE — `jf` may
+    write anything for a float, e.g. a blank, which the stripper removes. -/
+theorem C05_json_pretty_strip_false :
+    ¬ (∀ (jf : String → String) (v : Val) (lvl : Nat),
+        jspStrip (jsonPrettyChars jf lvl v) = jsonEncodeChars jf v) := by
+  intro h
+  exact absurd (h (fun _ => " ") (.flt "1.5") 0) (by decide)
+
+/-- **C05_json_pretty_strip_partial** — the strongest true variant: when no float literal of the
+    value contains whitespace or a quote (`jsp_PlainNums`; implied by `js_NumsOK`, number tokens
+    being made of digits, `-`, `+`, `.`, `e`, `E`), removing the whitespace outside string literals
+    from the indented text (any level) gives the compact text, and the compact text has none to
+    remove.  Strings are arbitrary: blanks, newlines (escaped by the writer), quotes and
+    backslashes inside them are untouched.  On streams the stripper also drops the newline after
+    each document. -/
+theorem C05_json_pretty_strip_partial (jf : String → String) :
+    (∀ (v : Val) (lvl : Nat), jsp_PlainNums jf v →
+      jspStrip (jsonPrettyChars jf lvl v) = jsonEncodeChars jf v ∧
+      jspStrip (jsonEncodeChars jf v) = jsonEncodeChars jf v) ∧
+    (∀ (fol : String → String) (v : Val), js_NumsOK jf fol v → jsp_PlainNums jf v) ∧
+    (∀ vs : List Val, (∀ v ∈ vs, jsp_PlainNums jf v) →
+      jspStrip (jsonPrettyStreamChars jf vs) = (vs.map (jsonEncodeChars jf)).flatten) := by
+  refine ⟨fun v lvl h => ⟨jsp_strip_pretty_eq jf v lvl h, jsp_strip_enc_eq jf v h⟩,
+    fun fol v h => jsp_plain_of_numsOK jf fol v h, ?_⟩
+  intro vs h
+  apply jsp_strip_stream
+  induction vs with
+  | nil => simp [jsp_PlainNumsList]
+  | cons v vs ih =>
+    simp only [jsp_PlainNumsList]
+    exact ⟨h v List.mem_cons_self, ih (fun w hw => h w (List.mem_cons_of_mem _ hw))⟩
+
+example : jsp_PlainNums js_demoJf js_demoVal :=
+  (C05_json_pretty_strip_partial js_demoJf).2.1 js_demoFol _ js_demoVal_repr.2
+example : jspStrip (jsonPrettyChars js_demoJf 2 js_demoVal) = jsonEncodeChars js_demoJf js_demoVal :=
+  ((C05_json_pretty_strip_partial js_demoJf).1 js_demoVal 2
+    ((C05_json_pretty_strip_partial js_demoJf).2.1 js_demoFol _ js_demoVal_repr.2)).1
+example : jspStrip jsp_demoText.toList = (jsonEncode js_demoJf jsp_demoVal).toList := by decide
+example : jspStrip ['[', ' ', '"', ' ', '\\', '"', ' ', '"', ' ', ',', '\n', '1', ']'] =
+    ['[', '"', ' ', '\\', '"', ' ', '"', ',', '1', ']'] := by decide
+
+/-! ### labelled tests for the indented writer -/
+
+/-- `{"a": [1, {"b": []}], "c": {}}` laid out as Go does -/
+example : String.ofList (jsonPrettyChars js_demoJf 0 jsp_demoVal) = jsp_demoText := by decide
+example : jsp_demoText =
+    "{\n  \"a\": [\n    1,\n    {\n      \"b\": []\n    }\n  ],\n  \"c\": {}\n}" := rfl
+example : jsonEncode js_demoJf jsp_demoVal = "{\"a\":[1,{\"b\":[]}],\"c\":{}}" := by decide
+/-- … and it reads back -/
+example : jsonLoad js_demoFol jsp_demoText = .ok jsp_demoVal := by
+  rw [← show String.ofList (jsonPrettyChars js_demoJf 0 jsp_demoVal) = jsp_demoText from by decide]
+  exact (C05_json_pretty_decode _ _ _ jsp_demoVal_repr.1 jsp_demoVal_repr.2).1
+/-- floats (`1e-07` is written `1e-7`), an escaped key, a string with a blank and a quote -/
+example : String.ofList (jsonPrettyChars js_demoJf 0 jsp_demoVal2) = jsp_demoText2 := by decide
+example : jsonLoad js_demoFol jsp_demoText2 = .ok jsp_demoVal2 := by
+  rw [← show String.ofList (jsonPrettyChars js_demoJf 0 jsp_demoVal2) = jsp_demoText2 from by decide]
+  exact (C05_json_pretty_decode _ _ _ jsp_demoVal2_repr.1 jsp_demoVal2_repr.2).1
+/-- a stream: every document indented from level 0 and followed by a newline; scalars and empty
+    containers are written as in the compact form -/
+example : jsonPrettyStream js_demoJf [.map [("a", .int 1)], .null, .list [], .map [], .list [.list []]]
+    = "{\n  \"a\": 1\n}\nnull\n[]\n{}\n[\n  []\n]\n" := by decide
+/-- the reader alone, on a literal indented text (no theorem involved) -/
+example : jsonDecodeDocs js_demoFol 20
+      ['[', '\n', ' ', ' ', '1', ',', '\n', ' ', ' ', '{', '}', '\n', ']', '\n']
+    = .ok [.list [.jnum "1" "1", .map []]] := rfl
 
 end Bkl
